@@ -66,7 +66,19 @@ fn main() {
                 _ => Tier::Quick,
             };
             let seed: u64 = std::env::var("VERIF_SEED").ok().and_then(|s| s.parse().ok()).unwrap_or(0);
-            let code = match args[2].as_str() {
+            let id = args[2].clone();
+            let code = match mc::util::catch(move || run_check(&id, tier, seed)) {
+                Ok(c) => c,
+                Err(m) => mc::util::machinery_error(&format!("the harness itself panicked while checking {}: {m}", args[2])),
+            };
+            std::process::exit(code);
+        }
+        _ => usage(),
+    }
+}
+
+fn run_check(id: &str, tier: Tier, seed: u64) -> i32 {
+    match id {
                 "C01" => logins::run(logins::Oracle::C01, tier, seed),
                 "C02" => c02::run(tier, seed),
                 "C03" => logins::run(logins::Oracle::C03, tier, seed),
@@ -86,13 +98,9 @@ fn main() {
                 "C17" => c17::run(tier, seed),
                 "C19" => c19::run(tier, seed),
                 "C18" => c18::run(tier, seed),
-                other => {
-                    eprintln!("unknown property {other}");
-                    2
-                }
-            };
-            std::process::exit(code);
+        other => {
+            eprintln!("unknown property {other}");
+            2
         }
-        _ => usage(),
     }
 }
